@@ -172,6 +172,9 @@ class BufferedReader:
                     yield self._buffer[:pos]
                 return
 
+        # NOTE: The source is exhausted: hand out whatever is left in the
+        #   buffer, and mark it as consumed so that it is not served again.
+        self._buffer_pos = self._buffer_len
         yield self._buffer
 
     async def _consume_delimiter(self, delimiter: bytes) -> None:
